@@ -177,7 +177,19 @@ func Build(form string, p *refcodec.Packet, from netip.Addr, c BuildCtx) ([]byte
 			opts = append(opts, refcodec.OptNop()...)
 			opts = append(opts, refcodec.OptTimestamps(c.TSVal, 0)...)
 		}
-		if form != "plainack" {
+		if form == "sack0" || form == "sackHalf" {
+			// a SACK option that holds no complete block (length 2, or 6: half a block): selective acknowledgement negotiated, nothing reported
+			opts = append(opts, refcodec.OptNop()...)
+			opts = append(opts, refcodec.OptNop()...)
+			if form == "sack0" {
+				opts = append(opts, 5, 2)
+			} else {
+				opts = append(opts, 5, 6, 0, 0, 0, 1)
+			}
+			for len(opts)%4 != 0 {
+				opts = append(opts, 1)
+			}
+		} else if form != "plainack" {
 			blocks := sackBlocks(c.SackInitSeq, c.SackHeld)
 			max := 3
 			switch form {
